@@ -81,7 +81,7 @@ def run(chk, replay=None):
                 "parameters, calls the era's UtxoValidateValueNotConservedUtxo at three scales (x1, x10^6, ~2^62), each with a different concrete identity of the model's two assets (names differing by a trailing 0x00, \"\" vs 0x00, prefix-related, 32 bytes differing in the last one, random, same name under two policy ids), plus "
                 "once after a CBOR encode/decode round trip, and compares accept/reject with the TLC row; it also "
                 "confirms the rule is in the era's UtxoValidationRules. The phase-2 flag is a coordinate of the case "
-                "space (Alonzo..Dijkstra): one base transaction in FlagEvery (quick 5, thorough every one) is emitted a "
+                "space (Alonzo..Dijkstra): one base transaction in FlagEvery (quick 6, thorough every one) is emitted a "
                 "second time, in all its variants, with is_valid = false; the reference verdict does not read the flag "
                 "(invariants FlagIrrelevant, FlagTwin), the driver builds the flagged transaction and expects the "
                 "unflagged twin's answer (keys end in :p2invalid; round trip where the era's encoding carries the "
